@@ -24,11 +24,27 @@ EXPLANATION = (
     "Session::process starts at a field boundary (SOH) and parsing starts right after '='; R19.4 exactly the five sequence/identity "
     "exception classes construct f8Exception(force_logoff=true); R19.5 in the f8Exception handler: forcing => Logout sent on every "
     "non-silent path, stop() or rethrow, never `return true`; non-forcing => handle_outbound_reject; handle_application is "
-    "dominated by the factory result test. NOT decided: actual delivery for concrete histories; exceptions thrown inside callees.")
+    "dominated by the factory result test. R19.6 in enforce() the CompID comparison is reachable for every established state except logon_received and sequence_check for every established state (enumeration over the state enumerators). NOT decided: actual delivery for concrete histories; exceptions thrown inside callees.")
 
 S = 'FIX8::Session::'
 RECV = S + '_next_receive_seq'
 FORCING = {'FIX8::InvalidMsgSequence', 'FIX8::MsgSequenceTooLow', 'FIX8::InvalidVersion', 'FIX8::BadSendingTime', 'FIX8::BadCompidId'}
+
+
+def origsendingtime_rule(ctx, f, RID):
+    """PossDup replay: only OrigSendingTime strictly after SendingTime is refused (equal stamps are legal) - also C20 R20.4"""
+    cfg = f.cfg
+    ost = q.branches(f, lambda a: a.is_call and a.r.get('op') in ('>', '<', '>=', '<=') and q.reads_local_of_field(a, 122) and q.reads_local_of_field(a, 52))
+    ctx.check(len(ost) == 1, RID, S + 'sequence_check#lt.origsendingtime-test', f.loc, 'OrigSendingTime(122) is compared with SendingTime(52)')
+    for br in ost:
+        a = br[1]
+        ops = ([a.obj] if a.obj is not None else []) + a.args
+        first122 = q.reads_local_of_field(ops[0], 122)
+        op = a.r['op']
+        after = (op == '>' and first122) or (op == '<' and not first122)
+        ctx.check(after, RID, S + 'sequence_check#lt.origsendingtime-op', a.loc, 'the failing relation is strictly OrigSendingTime > SendingTime')
+        rs = q.reachable_returns(cfg, q.atom_edge(cfg, br, True))
+        ctx.check(not rs, RID, S + 'sequence_check#lt.badtime.throws', a.loc, 'OrigSendingTime after SendingTime: no normal return')
 
 
 def run(ctx):
@@ -154,17 +170,7 @@ def run(ctx):
         got = [c for c in f.calls() if c.callee_qp == 'FIX8::MessageBase::get' and c.args and q.reads_local_of_field(c.args[0], 43)]
         ctx.check(bool(got) and all(cfg.dominates(cfg.vertex_of(g), cfg.block_last[br[0]]) for g in got[:1]), 'R19.2',
                   S + 'sequence_check#lt.possdup-read', br[1].loc, 'PossDupFlag is read from the message header before the test')
-    ost = q.branches(f, lambda a: a.is_call and a.r.get('op') in ('>', '<', '>=', '<=') and q.reads_local_of_field(a, 122) and q.reads_local_of_field(a, 52))
-    ctx.check(len(ost) == 1, 'R19.2', S + 'sequence_check#lt.origsendingtime-test', f.loc, 'OrigSendingTime(122) is compared with SendingTime(52)')
-    for br in ost:
-        a = br[1]
-        ops = ([a.obj] if a.obj is not None else []) + a.args
-        first122 = q.reads_local_of_field(ops[0], 122)
-        op = a.r['op']
-        after = (op == '>' and first122) or (op == '<' and not first122)
-        ctx.check(after, 'R19.2', S + 'sequence_check#lt.origsendingtime-op', a.loc, 'the failing relation is strictly OrigSendingTime > SendingTime')
-        rs = q.reachable_returns(cfg, q.atom_edge(cfg, br, True))
-        ctx.check(not rs, 'R19.2', S + 'sequence_check#lt.badtime.throws', a.loc, 'OrigSendingTime after SendingTime: no normal return')
+    origsendingtime_rule(ctx, f, 'R19.2')
     r_eq, t_eq, reach_eq = rets('EQ')
     ctx.check(r_eq and all(q.return_value(r) == 1 for r in r_eq) and not t_eq, 'R19.2', S + 'sequence_check#eq.accept', f.loc,
               'seqnum = expected: returns true, throws nothing')
@@ -305,6 +311,68 @@ def run(ctx):
         atoms = q.controlling_atoms(pr, c)
         ctx.check(any(a.is_call and a.callee_qp == S + 'activation_check' and pol for a, pol in atoms), 'R19.5', S + 'process#deliver.active', c.loc,
                   'delivery only while the session is active')
+    # ---------------- R19.6 enforce(): which checks run in which session state (decision table over the state enumerators)
+    enf = prog.fn1(S + 'enforce')
+    ctx.saw(enf)
+    ecfg = enf.cfg
+    states = dict(prog.enum('FIX8::States::SessionStates')['e'])
+    est = prog.fns('FIX8::States::is_established')
+    ctx.need(est, 'States::is_established not found')
+    est = est[0]
+    erets = [n for n in est.all_nodes() if n.k == 'ReturnStmt']
+    ctx.need(len(erets) == 1, 'is_established: single return expected')
+    ep = est.param_ids[0]
+    cc = [c for c in enf.calls_to(S + 'compid_check')]
+    sc = [c for c in enf.calls_to(S + 'sequence_check')]
+    ctx.need(len(cc) == 1 and len(sc) == 1, 'enforce: compid_check / sequence_check calls not found')
+    bad_c, bad_s, n_est = [], [], 0
+    for name, val in sorted(states.items(), key=lambda kv: kv[1]):
+        if name == 'st_num_states':
+            continue
+        def ev_state_fn(fn, v, depth=0):
+            rr = [n for n in fn.all_nodes() if n.k == 'ReturnStmt']
+            if len(rr) != 1 or depth > 3:
+                return None
+            def catom(a):
+                if a.is_call and (a.callee_qp or '').startswith('FIX8::States::') and a.args:
+                    g = prog.fns(a.callee_qp)
+                    av = q.eval_int(a.args[0], {fn.param_ids[0]: v})
+                    if g and av is not None:
+                        return ev_state_fn(g[0], av, depth + 1)
+                return None
+            return q.eval_int(rr[0].children[0], {fn.param_ids[0]: v}, atom=catom)
+        is_est = ev_state_fn(est, val)
+        ctx.need(is_est is not None, 'is_established(%s) not evaluable' % name)
+
+        def atom(a, _v=val, _e=is_est):
+            if q.member_value_of(a, S + '_state'):
+                return _v
+            if a.is_call and a.callee_qp == 'FIX8::States::is_established':
+                return _e
+            return None
+
+        def okedge(v, w, lab, _atom=atom):
+            if lab is None or not isinstance(lab[1], bool):
+                return True
+            c = ecfg.cond_node(lab[0])
+            if c is None:
+                return True
+            r = q.eval_int(c, {}, atom=_atom)
+            return True if r is None else (bool(r) == lab[1])
+        reach = ecfg.reach_from(ecfg.entry, edge_ok=okedge)
+        if is_est:
+            n_est += 1
+            if (ecfg.vertex_of(cc[0]) in reach) != (name != 'st_logon_received'):
+                bad_c.append(name)
+            if ecfg.vertex_of(sc[0]) not in reach:
+                bad_s.append(name)
+    ctx.need(n_est >= 8, 'fewer than 8 established states (%d)' % n_est)
+    ctx.check(not bad_c, 'R19.6', S + 'enforce#compid-check-states', cc[0].loc,
+              'CompIDs are checked in every established state except logon_received (%d states)' % n_est,
+              'in state(s) %s an inbound message reaches the application without its CompIDs being compared with the session\'s: a message with a foreign '
+              'SenderCompID/TargetCompID and an acceptable number is delivered' % ', '.join(bad_c))
+    ctx.check(not bad_s, 'R19.6', S + 'enforce#sequence-check-states', sc[0].loc, 'the sequence check runs in every established state',
+              'sequence_check is skipped in state(s) %s' % ', '.join(bad_s))
     ctx.floor('R19.1', 12)
     ctx.floor('R19.2', 10)
     ctx.floor('R19.4', 20)
